@@ -174,8 +174,7 @@ def slice_generator(data, axis=0):
 
     # calculate the 'divmod' parameter which is used to work out
     # which index to use to use for each axis during iteration
-    mods = np.cumprod(axis_lens)
-    divs = [1] + list(mods[:-1])
+    divs = [1] + [int(m) for m in np.cumprod(axis_lens)[:-1]]
 
     # set up a full set of slices for the image, to be modified
     # at each iteration
@@ -183,8 +182,8 @@ def slice_generator(data, axis=0):
 
     for n in range(nmax):
         slices = slice_template.copy()
-        for (a, div, mod) in zip(axis, divs, mods):
-            x = int(n / div % mod)
+        for (a, div, alen) in zip(axis, divs, axis_lens):
+            x = (n // div) % alen
             slices[a] = x
         slices = tuple(slices)
         yield slices, data[slices]
